@@ -8,10 +8,15 @@ fails, evals, distinct, samples = [], 0, set(), []
 VALS = [np.nan, -1.0, 0.0, 1.0, 2.0]
 names = ["b", "a", "c"]  # deliberately not sorted: order must be the universe's
 idx = pd.date_range("2020-01-01", periods=4)
+class Temp(dict):
+    """target.temp: reading an entry the algo was supposed to leave, and did not, is a recorded failure (not a crash of this script)"""
+    def __missing__(self, k):
+        fails.append(dict(clause="algo-left-no-temp-entry", key=str(k)))
+        return {} if k == "weights" else []
 class T(object):
     """minimal target: what the selection algos read"""
     def __init__(self, data, now, temp=None, perm=None, extra=None, children=None):
-        self._u, self.now, self.temp, self.perm, self._extra = data, now, dict(temp or {}), dict(perm or {}), extra or {}
+        self._u, self.now, self.temp, self.perm, self._extra = data, now, Temp(temp or {}), dict(perm or {}), extra or {}
         self.children = children or {}
     @property
     def universe(self): return self._u.loc[: self.now]
